@@ -118,3 +118,25 @@ Proof. exact s_pop_spec. Qed.
 Print Assumptions C14_retain.
 Print Assumptions C14_retain_all_is_identity.
 Print Assumptions C14_pop.
+
+(* from_utf16_in: what it accepts is valid UTF-8; it accepts exactly the well-formed UTF-16 texts
+   (concatenated encode_utf16 of scalar values) and yields the UTF-8 of the same scalar values *)
+Theorem C14_from_utf16_valid : forall us bs, Forall (fun u => u < 65536) us -> from_utf16 us = Some bs -> Valid bs.
+Proof. exact from_utf16_valid. Qed.
+
+Theorem C14_from_utf16_roundtrip : forall cps, Forall (fun cp => scalar cp = true) cps ->
+  from_utf16 (concat (map enc16 cps)) = Some (concat (map encode cps)).
+Proof. exact from_utf16_roundtrip. Qed.
+
+Theorem C14_from_utf16_exact : forall us, Forall (fun u => u < 65536) us ->
+  (exists bs, from_utf16 us = Some bs) <->
+  (exists cps, Forall (fun cp => scalar cp = true) cps /\ us = concat (map enc16 cps)).
+Proof. exact from_utf16_exact. Qed.
+
+Example C14_from_utf16_example :
+  from_utf16 [97; 55348; 56606; 8364] = Some [97; 240; 157; 132; 158; 226; 130; 172] /\ from_utf16 [97; 56606] = None.
+Proof. vm_compute. split; reflexivity. Qed.
+
+Print Assumptions C14_from_utf16_valid.
+Print Assumptions C14_from_utf16_roundtrip.
+Print Assumptions C14_from_utf16_exact.
